@@ -7,6 +7,12 @@ correspondence : the `accel` branch of MultilevelSolver.solve and the dispatch o
                  passes (tol/rtol/atol, maxiter, x0, callback, residuals, M); `M @ v` is compared with an
                  independent one-cycle of the requested type; the name tables of the model are compared with the
                  installed modules.  Exact (strings / dyadic rationals); vectors with tolerance 1e-10.
+                 (E42) `ext_py2_call multilevel_solve` / `blackbox_solver_configuration` = the Lean definitions GENERATED
+                 by harness/py2lean2.py from the Python AST of MultilevelSolver.solve / solver_configuration on every run
+                 vs the real functions executed against mock objects (harness/extpy2.py): result, exception class and the
+                 whole trace (every call with all keyword arguments, in order) exact; Props/C08.lean links the generated
+                 accel branch to `C08.plan` (`generated_accel_refines_plan_*`) and the configuration to its specification
+                 (`generated_config_*`).
 search         : real accelerated solves (all native accelerators, SciPy ones by name and as callables) on
                  hierarchies from every constructor: status 0 => recomputed residual meets the accelerator's rule,
                  history = initial residual + one entry per callback with the right values, identical to the
@@ -53,7 +59,12 @@ META = {
                     'replays the control skeleton (theorem honest_native) on the observed residual history, recomputes the rule '
                     'on the returned iterate and the residual measure of every iterate handed to the callback',
                     'options (callback / residuals / return_info absent) do not change the iterate'],
-    'partial': [],
+    'partial': ['generated_accel_refines_plan_names / _cycles (E42): the refinement of C08.plan by the generated solve is proved on two '
+                'finite grids of requests (all names of both tables + an unknown name + the 4 callable conventions x all 32 Boolean '
+                'option combinations; 6 cycle spellings x 4 symmetry attributes x one accelerator per behaviour class) for ALL tol / '
+                'maxiter / info / residual norm, by kernel evaluation; arbitrary cycle / accelerator STRINGS outside the grids are '
+                'covered by the comparison with the real function only'],
+    'trusted_extra': ['harness/py2lean2.py (Python-AST -> Lean translator, second mode: whole functions with the numerical work abstracted; nested defs as closure values, try/except, keyword calls), lean/PyamgV/Model/ExtPy2Rt.lean (+ ExtPyRt.lean: CPython semantics on the PyVal universe and the event semantics of opaque objects) and harness/extpy2.py (mock objects implementing the same event semantics in Python): exercised on every run by the exact comparison (result, exception class, whole trace) of the generated definitions with the REAL functions executed against the mocks (op ext_py2_call)'],
     'assumptions': ['floating point: a recomputed residual norm is compared with the stopping threshold with a relative slack of '
                     '1e-6 plus 5e-15 * (initial residual + ||A||_1 ||x|| + ||b||) (recurrence residuals drift from true residuals); '
                     'decisions within 1e-9 (1e-7 for the comparison with the direct call) of the threshold are skipped and counted',
@@ -1229,8 +1240,22 @@ def bb_size_case(ctx, model_reply):
 
 # ------------------------------------------------------------------------------------------------
 
+def part_pylogic2(ctx):
+    """extension E42: the accel branch of MultilevelSolver.solve and solver_configuration as GENERATED from the working tree
+    (harness/py2lean2.py, Generated/PyLogic2.lean) vs the real functions executed against mock objects"""
+    import extpy2
+
+    def lean(c, lines):
+        return c.lean(lines)
+    batch = extpy2.Batch()
+    extpy2.part_solve(ctx, ctx.scale(300, 6000), batch, True)
+    extpy2.part_solver_configuration(ctx, ctx.scale(200, 4000), batch)
+    batch.run(ctx, lean)
+
+
 def run(ctx):
     np.seterr(all='ignore')
+    part_pylogic2(ctx)
     part_a(ctx, ctx.scale(220, 8000))
     part_b(ctx, ctx.scale(26, 1400), ctx.scale(14, 24))
     part_c(ctx, ctx.scale(8, 140), ctx.scale(5, 140))
